@@ -24,7 +24,7 @@ LL2C = os.path.join(ENGINE, "ll2c")
 TRACE_N = 192
 
 CLANG_FLAGS = ["-std=c++17", "-O0", "-Xclang", "-disable-O0-optnone", "-fno-vectorize", "-fno-slp-vectorize",
-               "-fno-unroll-loops", "-DNDEBUG", "-DVP_SOLVER", "-w"]
+               "-fno-unroll-loops", "-DNDEBUG", "-DVP_SOLVER", "-w", "-include", os.path.join(ENGINE, "vp_cxxcfg.h")]
 CBMC_BASE = ["--unwinding-assertions", "--signed-overflow-check", "--undefined-shift-check", "--drop-unused-functions",
              "--no-malloc-may-fail", "--object-bits", "12", "--max-field-sensitivity-array-size", "2048",
              "--no-standard-checks", "--bounds-check", "--pointer-check", "--div-by-zero-check", "--trace", "--trace-hex", "--verbosity", "8"]
@@ -393,6 +393,9 @@ def run_obligation(prop, tier, tu, o, cfg, unwind_hints, seed, wd):
     r["builtin_checks"] = len(others)
     r["cover_points"] = len(covers)
     r["learned_unwindset"] = unwindset
+    if st.get("verdict") == "ERROR" or any(p["status"] == "ERROR" for p in props):
+        tail = out[-600:].replace("\n", " ")
+        r.update(status="inconclusive", reason="solver error / out of memory (limit %g GB): %s" % (mem, tail[-300:])); return r
     bad_cov = [p for p in covers if p["status"] != "FAILURE"]
     if not covers:
         r.update(status="inconclusive", reason="harness has no reachability witness (vp_cover)"); return r
@@ -404,7 +407,7 @@ def run_obligation(prop, tier, tu, o, cfg, unwind_hints, seed, wd):
     tr = traces_from(out)
     r["_traces"] = tr
     r["_covers"] = [p["name"] for p in covers]
-    if unknown:
+    if unknown and not fails:
         r.update(status="inconclusive", reason="cbmc status %s for %s" % (unknown[0]["status"], unknown[0]["name"])); return r
     if fails:
         r["status"] = "failed"; r["failed_properties"] = fails
